@@ -6,10 +6,10 @@
 set -u
 ID=$1; N=$2; SRC=$3
 WT=/tmp/vseed_${ID}_${N}
-OUT=/verif/seeded/${ID}-${N}
+OUT=/verif/seeded/${ID}-${VSEED_OUTN:-$N}
 STABLE='test_custom_language_detect_fast_text_[01]|test_search_dates_with_prepositions'
 git -C /repo worktree remove --force $WT 2>/dev/null
-git -C /repo worktree add -q --detach $WT c8c8cb2 || exit 3
+git -C /repo worktree add -q --detach $WT ${VSEED_BASE:-c8c8cb2} || exit 3
 mkdir -p $WT/_seed && cp $SRC/demo$N.py $WT/_seed/
 cd $WT
 /venv/bin/python _seed/demo$N.py > /tmp/vseed_${ID}_${N}.clean 2>&1; clean_rc=$?
